@@ -8,7 +8,12 @@ TRUSTED_COMMON = [
     "Go toolchain go1.26.8, its standard library and runtime",
     "for the *Code theorems (PsaDhcp.Gen regenerated from /repo by /verif/xlate on every run): the translator and the reading of Go in "
     "lean/PsaDhcp/Go/Prelude.lean — value semantics for slices (no aliasing), nil = empty slice, unbounded int, array lengths as hypotheses; "
-    "validated by the proofs Gen.f = model f together with the byte-exact correspondence of the same models with the real functions",
+    "Go maps as association lists (iteration order = list order, unspecified), *client as heap index inside package clients and as an "
+    "identity+accessor snapshot outside it, time.Time as Int, float64 scaling by the model's exact rounding, errors compared by message, "
+    "std parsers (net.ParseIP/ParseCIDR/ParseMAC, time.ParseDuration) uninterpreted, regular expressions as class tables built from the pattern text; "
+    "calls that leave a layer are operations of that layer's environment structure (instantiated in the theorems by the model of the layer below and "
+    "explicit oracles); lock/unlock, context.With*, defer cancel(), closer goroutines and logging are dropped (they are facts pinned in Expect.lean); "
+    "validated by the proofs Gen.f = model f together with the byte-exact correspondence of the same models with the real functions (DESIGN.md §13.3, §14.3)",
 ]
 
 PROPS = {
@@ -20,8 +25,9 @@ PROPS = {
                  "(system_refines_table) — Lean theorems by invariant over all event lists; tied to the code by byte- and clock-exact correspondence of "
                  "the real server.New + Run on the virtual segment (sequential scripts under a virtual clock) and by real-time bursts of overlapping "
                  "packets, with an independent grant-overlap monitor on the tapped frames."
-                 " The lease database below the handlers is on the regenerated code too: every method of *IPDB (UpdateClient, FindIP, LookupClientByDuid, AddPermanentClient, ...) and every method of the clients table (Lookup, Inject, SetLease, ... with its Go map and record pointers), as translated from the source on every run, equal the model operations the invariants are proved over (C11Code, C11CodeClients).",
-        "props": ["C01", "C02Code", "C11Code", "C11CodeClients"],
+                 " The lease database below the handlers is on the regenerated code too: every method of *IPDB (UpdateClient, FindIP, LookupClientByDuid, AddPermanentClient, ...) and every method of the clients table (Lookup, Inject, SetLease, ... with its Go map and record pointers), as translated from the source on every run, equal the model operations the invariants are proved over (C11Code, C11CodeClients)."
+                 " The packet handlers (handleMsg, handleDiscover, handleRequest, sendMsg, sendNACK, getDuid) as translated from the source on every run, executed over the model's database steps and handler oracle, end in exactly the database and frame of the model's handle (C04Code).",
+        "props": ["C01", "C02Code", "C11Code", "C11CodeClients", "C04Code"],
         "streams": [{"test": "TestSrvSeq", "names": ["srvseq"], "timeout": 300}, {"test": "TestSrvConc", "names": ["srvconc"], "timeout": 300},
                     {"test": "TestDbConc", "names": ["dbconc"], "timeout": 300}],
         "rule": "corpus (D1-D3 histories) first; random configurations (prefix /24../30, pools of 1-8 addresses at start/middle/end, 0-2 static entries, "
@@ -54,8 +60,9 @@ PROPS = {
                  "address, and every well-formed broadcast DISCOVER from it is answered with an OFFER of exactly that address in every reachable "
                  "state, for every client identifier / requested address / oracle (static_exclusive, static_only_address, static_always_offered, "
                  "sduid_injective) — Lean theorems; correspondence and monitor as for C01 (reserved hosts take part in 70% of the scripts, with "
-                 "and without client identifiers, and forged-identifier messages name reserved hosts and the server).",
-        "props": ["C03", "C02Code"],
+                 "and without client identifiers, and forged-identifier messages name reserved hosts and the server)."
+                 " The packet handlers (handleMsg, handleDiscover, handleRequest, sendMsg, sendNACK, getDuid) as translated from the source on every run, executed over the model's database steps and handler oracle, end in exactly the database and frame of the model's handle (C04Code).",
+        "props": ["C03", "C02Code", "C04Code"],
         "streams": [{"test": "TestSrvSeq", "names": ["srvseq"], "timeout": 300}],
         "rule": "as C01; non-trivial = the server answered",
         "trusted": ["as C01"],
@@ -67,8 +74,9 @@ PROPS = {
                  "(ack_iff); silent and — over the reference table — changing nothing for another server / outside the network / unicast elsewhere / "
                  "own hardware address (silent_and_unchanged); NAK when not bound (nak_when_not_bound); the panic of handleRequest unreachable "
                  "(desired_ne_none) — Lean theorems for every database state and oracle, tied to frames by handle_eq_handleV; exhaustive "
-                 "correspondence of the full request matrix (5 760 cells, each against a fresh real server with follow-up probes).",
-        "props": ["C04", "C02Code"],
+                 "correspondence of the full request matrix (5 760 cells, each against a fresh real server with follow-up probes)."
+                 " The packet handlers (handleMsg, handleDiscover, handleRequest, sendMsg, sendNACK, getDuid) as translated from the source on every run, executed over the model's database steps and handler oracle, end in exactly the database and frame of the model's handle (C04Code).",
+        "props": ["C04", "C02Code", "C04Code"],
         "streams": [{"test": "TestReqMatrix", "names": ["reqmatrix"], "timeout": 300}, {"test": "TestSrvSeq", "names": ["srvseq"], "timeout": 300}],
         "rule": "EXHAUSTIVE matrix: sender binding {none, pending offer, lease, static, expired} x identity {hw, client id, short id, server MAC} x "
                 "IP destination {broadcast, server, other} x server identifier {none, this, other, 3 bytes} x requested address {none, bound, "
@@ -86,8 +94,9 @@ PROPS = {
                  "honoured (suggestion_honoured) and silence on a DISCOVER means every pool address was examined and found bound, .0/.255 or in "
                  "conflict (silent_only_if_exhausted) — Lean theorems over all event lists; correspondence as C01 with gaps around hold and lease "
                  "times and a monitor that tracks every client's running grants from the tapped frames."
-                 " UpdateClient (never-shorten rule included) and FindIP (suggestion only inside the range, permutation, per-candidate probe) as translated from the source on every run equal the model's updateClient/findIP, and the clients table below them equals Model/Clients (C11Code, C11CodeClients).",
-        "props": ["C05", "C11Code", "C11CodeClients"],
+                 " UpdateClient (never-shorten rule included) and FindIP (suggestion only inside the range, permutation, per-candidate probe) as translated from the source on every run equal the model's updateClient/findIP, and the clients table below them equals Model/Clients (C11Code, C11CodeClients)."
+                 " The packet handlers (handleMsg, handleDiscover, handleRequest, sendMsg, sendNACK, getDuid) as translated from the source on every run, executed over the model's database steps and handler oracle, end in exactly the database and frame of the model's handle (C04Code).",
+        "props": ["C05", "C11Code", "C11CodeClients", "C04Code"],
         "streams": [{"test": "TestSrvSeq", "names": ["srvseq"], "timeout": 300}, {"test": "TestIpdb", "names": ["ipdb"], "timeout": 300}],
         "rule": "as C01 (gaps hold-2 s, hold+2 s, lease/2, lease-3 s, lease+3 s, 3*lease; re-DISCOVERs by bound clients; retransmitted REQUESTs; other "
                 "hosts in between; pools down to one address) plus the IPDB stream at database level; non-trivial = the server answered",
@@ -101,8 +110,9 @@ PROPS = {
                  "verifying (lease_reply_wire, nak_reply_wire, composed from the C12/C13 round trips); at most one reply per handler "
                  "(at_most_one_reply, done_is_final) — Lean theorems; byte-exact comparison of every frame in all server streams and an independent "
                  "decoder as monitor."
-                 " Reply assembly of lib/server/replies as translated from the source on every run equals assembleLease/assembleNak (C06Code); the codecs below it are C13Code.",
-        "props": ["C06", "C13Code", "C06Code"],
+                 " Reply assembly of lib/server/replies as translated from the source on every run equals assembleLease/assembleNak (C06Code); the codecs below it are C13Code."
+                 " The packet handlers (handleMsg, handleDiscover, handleRequest, sendMsg, sendNACK, getDuid) as translated from the source on every run, executed over the model's database steps and handler oracle, end in exactly the database and frame of the model's handle (C04Code).",
+        "props": ["C06", "C13Code", "C06Code", "C04Code"],
         "streams": [{"test": "TestSrvSeq", "names": ["srvseq"], "timeout": 300}, {"test": "TestReqMatrix", "names": ["reqmatrix"], "timeout": 300}],
         "rule": "every reply frame of the C01 scripts and of the request matrix (xid, all 16 flag bits in 5% of the messages, hardware-address lengths "
                 "0..16, pads, trailing bytes); non-trivial = answered",
@@ -131,8 +141,9 @@ PROPS = {
                  "REQUEST whose probe met a foreign answer is never acknowledged and is NAKed (conflict_never_acked, conflict_naked); an offered "
                  "address was probed free in the very search (offered_was_probed_free) — Lean theorems; the real arpping.Ping against injected frame "
                  "lists, responders on the pools of the server scripts, and restarts with leaseholders still answering."
-                 " FindIP as translated from the source on every run (each candidate: context check, clock, Lookup, Valid, probe callback) equals the model's findIP/findLoop (C11Code); arpping.catchARPReply/Ping and server.arpVerify as translated equal the model's catchARPReply (first frame whose first 28 bytes decode with sender address = target) and arpVerify over at most three pings (C08Code).",
-        "props": ["C08", "C13Code", "C11Code", "C08Code"],
+                 " FindIP as translated from the source on every run (each candidate: context check, clock, Lookup, Valid, probe callback) equals the model's findIP/findLoop (C11Code); arpping.catchARPReply/Ping and server.arpVerify as translated equal the model's catchARPReply (first frame whose first 28 bytes decode with sender address = target) and arpVerify over at most three pings (C08Code)."
+                 " The packet handlers (handleMsg, handleDiscover, handleRequest, sendMsg, sendNACK, getDuid) as translated from the source on every run, executed over the model's database steps and handler oracle, end in exactly the database and frame of the model's handle (C04Code).",
+        "props": ["C08", "C13Code", "C11Code", "C08Code", "C04Code"],
         "streams": [{"test": "TestArp", "names": ["arp"], "timeout": 300}, {"test": "TestSrvSeq", "names": ["srvseq"], "timeout": 300}],
         "rule": "Ping against 0-4 injected frames (valid answers, wrong sender address, requests, short, padded to 46 bytes, random); restart scripts: 1-4 "
                 "hosts lease, the server is rebuilt empty, the holders answer ARP, 1-3 newcomers DISCOVER (half of them asking for an address in use); "
@@ -150,8 +161,9 @@ PROPS = {
                  "theorems; the granularity of atomicity and the per-packet copy are facts extracted from the source on every run "
                  "(Expect.c01_c09_c11_ipdb_lock_discipline, c09_handler_isolation); real-time bursts of overlapping packets into the real Run loop and "
                  "concurrent calls on the real IPDB checked against all sequential orders."
-                 " The receive loop as translated from the source on every run copies every packet out of the receive buffer before decoding it and hands each handler its own decoded message (C10Code.code_run): what a handler gets is a function of its own frame.",
-        "props": ["C09", "C10Code"],
+                 " The receive loop as translated from the source on every run copies every packet out of the receive buffer before decoding it and hands each handler its own decoded message (C10Code.code_run): what a handler gets is a function of its own frame."
+                 " The packet handlers (handleMsg, handleDiscover, handleRequest, sendMsg, sendNACK, getDuid) as translated from the source on every run, executed over the model's database steps and handler oracle, end in exactly the database and frame of the model's handle (C04Code).",
+        "props": ["C09", "C10Code", "C04Code"],
         "streams": [{"test": "TestSrvConc", "names": ["srvconc"], "timeout": 300}, {"test": "TestDbConc", "names": ["dbconc"], "timeout": 300},
                     {"test": "TestCfgOptions", "names": ["cfgopts"], "timeout": 300},
                     {"test": "TestSrvConc", "names": ["srvconc-race"], "timeout": 300, "race": True, "env": {"HX_N": "16", "HX_SUFFIX": "-race"},
@@ -213,7 +225,7 @@ PROPS = {
                  "virtual segment over every combination of violated conjuncts x 4 waiting states, plus mutated frames."
                  " The six predicates of lib/client/verify as translated from the source on every run equal the model's (C14Code)."
                  " catchReply itself (the loop over received frames: IPv4, protocol 17, port 68, hardware address, verifier, NAK) as translated from the source on every run equals the model's catchReply (C14CodeCatch).",
-        "props": ["C14", "C14Code", "C14CodeCatch"],
+        "props": ["C14", "C14Code", "C14CodeCatch", "C15Code"],
         "streams": [{"test": "TestCliCatch", "names": ["clicatch"], "timeout": 600}],
         "rule": "all 2^11 combinations of violated conjuncts (quick: all singles and pairs + 1/8 of the rest; thorough: all) x {offer, selecting, renewing, "
                 "rebinding}, each violation drawn from its variants (absent / zero / broadcast / wrong length / wrong value), lease boundaries 59/60/61 s, "
@@ -227,8 +239,9 @@ PROPS = {
                  "accepted reply of the history (setIface_step, setIface_only_acknowledged), conflict / SetIface error / NAK / expiry start over, "
                  "T1 <= T2 <= expiry for every lease including the float64 rounding of 0.875*lease (deadlines_ordered), link-up re-validates — Lean "
                  "theorems over all event lists; tied to the code by running the real dclient (with the mclient loop) under a virtual clock against a "
-                 "scripted server and comparing the complete effect timeline (callbacks, frames, probes, deadlines, libif operations).",
-        "props": ["C15"],
+                 "scripted server and comparing the complete effect timeline (callbacks, frames, probes, deadlines, libif operations)."
+                 " The whole client automaton of lib/client/dclient (Run, the eight state functions, panicReset, ResumeClient, buildNetconfig) as translated from the source on every run, fed a script of the model's events, logs the effect trace of the model automaton crun (C15Code.code_client_trace: a simulation over all fitting scripts), with the deadlines of runStateBound and ResumeClient and the configuration of buildNetconfig equal to the model's.",
+        "props": ["C15", "C15Code"],
         "streams": [{"test": "TestCliAuto", "names": ["cliauto"], "timeout": 300}, {"test": "TestMclient", "names": ["mclient"], "timeout": 300},
                     {"test": "TestCliSan", "names": ["clisan"], "timeout": 300}],
         "rule": "scripts of 6-20 decisions: at each exchange {valid reply, NAK, invalid replies then silence, silence, link-up}, at each ARP probe {no answer, "
@@ -246,8 +259,9 @@ PROPS = {
                  "pattern of its state, ports 68->67, valid checksums, hardware address, derived client identifier (template_wire); retransmission "
                  "spacing >= 700 ms and non-decreasing for every random stream (retransmit_delays) — Lean theorems; byte-exact correspondence with "
                  "msgtmpl and observed schedules of the real sendMessage under a virtual clock."
-                 " (*tmpl).request of lib/client/msgtmpl as translated from the source on every run equals clientRequest, the math/rand draw being a parameter (C16Code).",
-        "props": ["C16", "C13Code", "C16Code"],
+                 " (*tmpl).request of lib/client/msgtmpl as translated from the source on every run equals clientRequest, the math/rand draw being a parameter (C16Code)."
+                 " sendMessage/sendSocket as translated from the source on every run: the waits between transmissions are the model's delay sequence for every random stream, every transmission writes the template's frame, the socket is the unicast one to the server's ARP answer or the broadcast one (C16CodeSend).",
+        "props": ["C16", "C13Code", "C16Code", "C16CodeSend"],
         "streams": [{"test": "TestCliTmpl", "names": ["clitmpl"], "timeout": 600}],
         "rule": "random hardware addresses (1..16 bytes), offered/server addresses incl. 0.0.0.0 and broadcast, all four states, two transmissions per "
                 "exchange; real sendMessage runs of 10 s .. 45 min virtual time whose inter-frame gaps are checked against the model's admissible "
